@@ -147,6 +147,62 @@ def specGetItemLoop (a : AState) (h : CH) (name : Option Name) : Except Code LH 
 def specPrune (a : AState) (h : CH) : AState × Except Code Unit :=
   ({ a with loops := a.loops.filter (fun y => !(y.cid == h.id && y.packets.isEmpty)) }, .ok ())
 
+/-- cif_create_block: a new, empty block under the spelling given, unless the code is invalid or (normalised) already in use -/
+def specCreateBlock (a : AState) (name : Option Name) : AState × Except Code CH :=
+  match name with
+  | none => (a, .error CIF_ARGUMENT_ERROR)
+  | some n =>
+    if !n.valid then (a, .error CIF_INVALID_BLOCKCODE)
+    else if a.blocks.any (fun b => b.name == n.key) then (a, .error CIF_DUP_BLOCKCODE)
+    else ({ a with containers := a.containers ++ [{ id := a.nextId, nextLoopNum := 0 }], nextId := a.nextId + 1,
+                   blocks := a.blocks ++ [{ cid := a.nextId, name := n.key, nameOrig := n.orig }] },
+          .ok { id := a.nextId, code := n.orig, isBlock := true })
+
+/-- cif_container_create_frame: a new, empty save frame in the container, unless the code is invalid or (normalised) already in use
+    in this container -/
+def specCreateFrameH (a : AState) (h : CH) (name : Option Name) : AState × Except Code CH :=
+  match name with
+  | none => (a, .error CIF_INVALID_FRAMECODE)
+  | some n =>
+    if !n.valid then (a, .error CIF_INVALID_FRAMECODE)
+    else if a.frames.any (fun f => f.parent == h.id && f.name == n.key) then (a, .error CIF_DUP_FRAMECODE)
+    else ({ a with containers := a.containers ++ [{ id := a.nextId, nextLoopNum := 0 }], nextId := a.nextId + 1,
+                   frames := a.frames ++ [{ cid := a.nextId, parent := h.id, name := n.key, nameOrig := n.orig }] },
+          .ok { id := a.nextId, code := n.orig, isBlock := false })
+
+/-- the container has an item of that (normalised) name, in whichever loop -/
+def AState.hasItem (a : AState) (cid : Nat) (k : Str) : Bool := a.loops.any (fun y => y.cid == cid && y.hasItem k)
+
+/-- the names are new to the container and pairwise distinct ("each item name … may appear only once in a container") -/
+def AState.namesFresh (a : AState) (cid : Nat) : List Name → Bool
+  | [] => true
+  | n :: ns => !a.hasItem cid n.key && !ns.any (fun m => m.key == n.key) && namesFresh a cid ns
+
+/-- cif_container_create_loop: a new loop with the given category and items and no packet, last among the container's loops;
+    refused without names, with an invalid name, for a second scalar loop, and for a name the container already has -/
+def specCreateLoop (a : AState) (h : CH) (cat : Option Str) (names : List Name) : AState × Except Code LH :=
+  if names.isEmpty then (a, .error CIF_NULL_LOOP)
+  else if names.any (fun n => !n.valid) then (a, .error CIF_INVALID_ITEMNAME)
+  else if cat == some [] && a.loops.any (fun y => y.cid == h.id && y.category == some []) then (a, .error CIF_RESERVED_LOOP)
+  else match a.containers.find? (fun c => c.id == h.id) with
+    | none => (a, .error CIF_INVALID_HANDLE)
+    | some c =>
+      if !a.namesFresh h.id names then (a, .error CIF_DUP_ITEMNAME)
+      else ({ a with containers := a.containers.map (fun r => if r.id == h.id then { r with nextLoopNum := r.nextLoopNum + 1 } else r),
+                     loops := a.loops ++ [{ cid := h.id, num := c.nextLoopNum, category := cat,
+                                            items := names.map (fun n => (n.key, n.orig)), packets := [] }] },
+            .ok { cid := h.id, loopNum := c.nextLoopNum, category := cat })
+
+/-- cif_loop_add_item: the loop gains the item, last, with the given value in every packet; refused for an invalid name and for a
+    name the container already has -/
+def specAddItem (a : AState) (l : LH) (name : Option Name) (val : Option V) : AState × Except Code Unit :=
+  match name with
+  | none => (a, .error CIF_INVALID_ITEMNAME)
+  | some n =>
+    if !n.valid then (a, .error CIF_INVALID_ITEMNAME)
+    else if a.hasItem l.cid n.key then (a, .error CIF_DUP_ITEMNAME)
+    else (a.onLoop l.cid l.loopNum (fun y => { y with items := y.items ++ [(n.key, n.orig)], packets := y.packets.map (· ++ [val.getD .unk]) }), .ok ())
+
 -- ---- histories on the documented model -----------------------------------------------------------------------------------------------
 
 /-- the world of a history, every managed CIF as the documented model; the handle tables are the caller's (a handle names an object),
@@ -186,7 +242,7 @@ end AWorld
 /-- the ops `specStep` covers so far -/
 def Op.covered : Op → Bool
   | .addPkt .. | .setCat .. | .ldestroy .. => true
-  | .names .. | .catLoop .. | .itemLoop .. | .prune .. => true
+  | .names .. | .catLoop .. | .itemLoop .. | .prune .. | .mkBlock .. | .mkFrame .. | .mkLoop .. | .addItem .. => true
   | .cifNew | .cifDel .. | .getBlock .. | .blocks .. | .getFrame .. | .frames .. | .code .. | .isBlock .. | .getCat .. | .cdestroy .. => true
   | _ => false
 
@@ -293,6 +349,33 @@ def specStep (a : AWorld) : Op → Option (AWorld × Result)
     | some (e, st) =>
       let (st1, r) := specPrune st e.h
       some (a.setCif e.cif st1, { rc := some (codeOf r) })
+  | .mkBlock c n =>
+    match a.liveC c with
+    | none => some ({ a with chs := a.chs ++ [none] }, skipped)
+    | some st =>
+      let (st1, r) := specCreateBlock st n
+      some ({ (a.setCif c st1) with chs := a.chs ++ [match r with | .ok h => some { cif := c, h := h } | .error _ => none] }, { rc := some (codeOf r) })
+  | .mkFrame h n =>
+    match a.liveH h with
+    | none => some ({ a with chs := a.chs ++ [none] }, skipped)
+    | some (e, st) =>
+      let (st1, r) := specCreateFrameH st e.h n
+      some ({ (a.setCif e.cif st1) with chs := a.chs ++ [match r with | .ok h' => some { cif := e.cif, h := h' } | .error _ => none] }, { rc := some (codeOf r) })
+  | .mkLoop h cat names =>
+    match a.liveH h with
+    | none => some ({ a with lhs := a.lhs ++ [none] }, skipped)
+    | some (e, st) =>
+      let (st1, r) := specCreateLoop st e.h cat names
+      some ({ (a.setCif e.cif st1) with lhs := a.lhs ++ [match r with | .ok l => some { cif := e.cif, ch := h, h := l } | .error _ => none] }, { rc := some (codeOf r) })
+  | .addItem l n v =>
+    match a.liveL l with
+    | none => some (a, skipped)
+    | some (e, st) =>
+      match n with
+      | none => some (a, skipped)
+      | some _ =>
+        let (st1, r) := specAddItem st e.h n v
+        some (a.setCif e.cif st1, { rc := some (codeOf r) })
   | _ => none
 
 /-- a whole history on the documented model (`none` as soon as an op is not covered) -/
